@@ -12,7 +12,7 @@ import tracecmp
 
 Finding = namedtuple('Finding', 'op msg')
 
-PF = {'u8': 32, 'u16': 16, 'u32': 8, 'u64': 4, 'u128': 2, 'u256': 1}
+PF = {k: v for k, v in ssz_ref.PACKING.items() if v}      # packing factors of the basic kinds (incl. fu64, bu16)
 
 
 def ceil_log2(n):
